@@ -71,6 +71,7 @@ func genC17(r *Rng, tier string) *c17W {
 	nc := 2 + r.Intn(3)
 	schemaTheme := r.Chance(15) // sessions that mostly upload and read schemas
 	churnTheme := !schemaTheme && r.Chance(15)
+	jobsTheme := !schemaTheme && !churnTheme && r.Chance(12) // everybody submits jobs at the same time
 	if r.Chance(20) {
 		w.WriteErrAt = 1 + r.Intn(30)
 	}
@@ -85,6 +86,10 @@ func genC17(r *Rng, tier string) *c17W {
 			k := r.Intn(100)
 			if schemaTheme && r.Chance(60) {
 				k = 91 + r.Intn(5)
+				g = "g1"
+			}
+			if jobsTheme && r.Chance(70) {
+				k = 96 + r.Intn(4)
 				g = "g1"
 			}
 			if churnTheme {
@@ -360,6 +365,8 @@ func execC17once(w *c17W, x *Exec) *Outcome {
 	schemas := make([][]c17Schema, len(w.Sessions))
 	servedSchema, storedSchema := "", "" // ids of the schema of g1 after quiescence ("" = none)
 	badSchemaRead := ""
+	jobOwner := map[string]string{} // job id -> the submission it was handed to
+	sharedJob := ""
 	var disk *simkv.Disk
 	res := x.Bubble(cfg, func(s *simrt.Sim) func() bool {
 		var srv *simServer
@@ -497,6 +504,11 @@ func execC17once(w *c17W, x *Exec) *Outcome {
 						}
 					case "submit":
 						if job, e := srv.submitUnary(&gripql.GraphQuery{Graph: op.G, Query: gen.StmtsOf(gen.V())}); e == nil && job != nil {
+							// every acknowledged submission has a job of its own
+							if prev, dup := jobOwner[job.Id]; dup && sharedJob == "" {
+								sharedJob = fmt.Sprintf("job id %s was handed to submission %s and to submission %s", job.Id, prev, val)
+							}
+							jobOwner[job.Id] = val
 							for k := 0; k < 100; k++ {
 								st, e := srv.Srv.GetJob(ctx, job)
 								if e != nil || st.State == gripql.JobState_COMPLETE || st.State == gripql.JobState_ERROR {
@@ -588,6 +600,8 @@ func execC17once(w *c17W, x *Exec) *Outcome {
 		o.Violation = &Violation{Signature: "C17/read-of-a-value-nobody-wrote", Detail: badReads[0]}
 	case staleCache != "":
 		o.Violation = &Violation{Signature: "C17/unchanged-timestamp-but-changed-listing", Detail: staleCache}
+	case sharedJob != "":
+		o.Violation = &Violation{Signature: "C17/jobs/two-submissions-share-a-job-id", Detail: sharedJob}
 	case badSchemaRead != "":
 		o.Violation = &Violation{Signature: "C17/schema/reader-saw-a-schema-nobody-uploaded", Detail: badSchemaRead}
 	case got == nil:
